@@ -81,27 +81,27 @@ CLAIMED = {
         text="Machine-checked (Coq 8.16), all texts (lists of code points of any length) and all integer "
              "positions, over Gen/text.v (left, right, mid, replace, find, exact, upper, lower, len_, concatenate "
              "re-translated from /repo/src/pycel/lib/text.py on every run) wrapped by Model/Text.v's model of "
-             "strs_wrapper/nums_wrapper/error_string_wrapper. FULL: C20_left_chars, C20_mid_chars, C20_partition "
-             "(LEFT(s,n)&MID(s,n+1,LEN s)=s), C20_right (last min(k,LEN) characters), C20_replace (=LEFT&t&MID), "
-             "C20_negative_counts (#VALUE!), C20_number_rendering (z and z.0 are the digits of z, logicals "
-             "TRUE/FALSE, blank empty, for LEFT/RIGHT/MID/REPLACE), C20_find_default, C20_substitute_all + "
-             "C20_substitute_rest (no occurrence: unchanged; else prefix & new & substitution of the rest, non-empty "
-             "pattern), C20_substitute_nth (instance i >= 1: exactly the i-th non-overlapping occurrence), "
-             "C20_concatenate, C20_exact, C20_upper/lower_idempotent (where the case mapping is modelled: "
-             "ASCII, Latin-1, CJK, pictographs) and C20_upper/lower_ascii (total on ASCII). PARTIAL: "
-             "C20_find_partial (first match / #VALUE! proved for start >= 1; start < 1 refuted: "
-             "Refuted/C20_find_start.v, FIND(\"c\",\"abc\",0)=3, fractional start raises TypeError), "
-             "C20_trim_partial (no adjacent spaces, other characters untouched, idempotent; 'none at the ends' "
-             "refuted: Refuted/C20_trim_ends.v). REFUTED witnesses also for RIGHT(s,0.5)=s "
-             "(Refuted/C20_right_fraction.v) and TEXT half-even rounding (Refuted/C20_text_rounding.v: "
-             "TEXT(2.5,\"0\")=\"2\", TEXT(0.125,\"0.00\")=\"0.12\"). CORRESPONDENCE-ONLY (no theorem): "
-             "CONCAT and TEXT(x,f) for one-section formats over 0 # , . % "
-             "(Model/TextFormat.v transcribes _tokenize_format/_number_converter/_number_token_converter with "
-             "round-half-even of the exact value). 19 theorems closed under the global context. Every quick run "
-             "compares the extracted model with the real functions called through apply_meta on ~420k calls "
-             "(all strings up to length 4 over a 5-symbol alphabet with a space, a 2-byte and a 4-byte character "
-             "x all n,k in -1..10; numbers/booleans/blanks/errors in every position; ~45k TEXT calls) and "
-             "evaluates the property's identities on the implementation.",
+             "strs_wrapper/nums_wrapper/error_string_wrapper. ALL FULL (21 theorems, closed under the global "
+             "context): C20_left_chars, C20_mid_chars, C20_partition (LEFT(s,n)&MID(s,n+1,LEN s)=s), C20_right "
+             "(last min(k,LEN) characters), C20_right_fraction (count in [0,1) gives the empty text), C20_replace "
+             "(=LEFT&t&MID), C20_negative_counts (#VALUE!), C20_number_rendering (z and z.0 are the digits of z, "
+             "logicals TRUE/FALSE, blank empty, for LEFT/RIGHT/MID/REPLACE), C20_find (every integer start: "
+             "#VALUE! below 1, else the least p >= start with MID(w,p,LEN f)=f or #VALUE!), C20_find_fraction (a "
+             "fractional start behaves as its truncation), C20_find_default, C20_substitute_all + "
+             "C20_substitute_rest (no occurrence: unchanged; else prefix & new & substitution of the rest, "
+             "non-empty pattern), C20_substitute_nth (instance i >= 1: exactly the i-th non-overlapping "
+             "occurrence), C20_concatenate, C20_exact, C20_trim (single inner spaces, no space at either end, "
+             "other characters untouched, idempotent), C20_upper/lower_idempotent (where the case mapping is "
+             "modelled: ASCII, Latin-1, CJK, pictographs) and C20_upper/lower_ascii (total on ASCII). REFUTED "
+             "(advisory witness, known finding C20-text-half-even): Refuted/C20_text_rounding.v, "
+             "TEXT(2.5,\"0\")=\"2\", TEXT(0.125,\"0.00\")=\"0.12\". CORRESPONDENCE-ONLY (no theorem): CONCAT "
+             "and TEXT(x,f) for one-section formats over 0 # , . % (Model/TextFormat.v transcribes "
+             "_tokenize_format/_number_converter/_number_token_converter with round-half-even of the exact "
+             "value). Every quick run compares the extracted model with the real functions called through "
+             "apply_meta on ~450k calls (all strings up to length 4 over a 5-symbol alphabet with a space, a "
+             "2-byte and a 4-byte character x all n,k in -1..10; fractional counts/starts; numbers/booleans/"
+             "blanks/errors in every position; ~45k TEXT calls) and evaluates the property's identities on the "
+             "implementation. Known findings: C20-text-half-even, C20-text-double-dot-keyerror.",
         design_ref="DESIGN.md 5 C20",
     ),
 }
